@@ -400,18 +400,62 @@ def gen_reg_history(rng, length, modelled=True):
         ops.append({"op": "setchain", "c": c, "kids": kids})
         chains[c] = kids
 
+    ALL = RUNS + CHAINS + TAGGED
+    probe_rate = rng.choice([0.0, 0.0, 0.3, 0.6, 1.0])     # wildcard probes after an operation
+
+    def wild():
+        y = rng.random()
+        if y < 0.6:
+            return {"op": "qcolls", "pat": rng.choice(["all", "dots", "r", "r", "ch", "tag", "re_r", "re_all"]), "api": "registry"}
+        if y < 0.7:
+            return {"op": "qcolls", "pat": rng.choice(["all", "r", "ch"]), "api": "butler"}
+        return {"op": "qdataglob", "ty": rng.randrange(3), "pat": rng.choice(["r", "r", "all", "dots", "ch"]), "api": "legacy" if modelled else rng.choice(["legacy", "new"])}   # the new query system flattens matched chains by name: not modelled
+
+    def refused():
+        """a request the registry must refuse (and that must leave every cached answer as without caches)"""
+        y = rng.randrange(9)
+        missing = [c for c in ALL if c not in exist]
+        kids_now = sorted({k for v in chains.values() for k in v})
+        cs_ = [c for c in CHAINS if c in exist]
+        if y == 0 and kids_now:
+            remove(rng.choice(kids_now))                                              # a chain's child
+        elif y == 1 and missing:
+            remove(rng.choice(missing))                                               # unknown name
+        elif y == 2:
+            ops.append({"op": "register_conflict", "c": anyc()})                      # existing name, other type: kept as is
+        elif y == 3 and cs_:
+            c = rng.choice(cs_)
+            ops.append({"op": "setchain", "c": c, "kids": [c]})                       # cycle
+        elif y == 4 and cs_ and missing:
+            ops.append({"op": "setchain", "c": rng.choice(cs_), "kids": [rng.choice(missing)]})   # unknown child
+        elif y == 5 and nonchains():
+            ops.append({"op": "setchain", "c": rng.choice(nonchains()), "kids": []})  # parent is not a chain
+        elif y == 6 and nid[0] > 0:
+            tgt = [c for c in ALL if c not in TAGGED]
+            ops.append({"op": "assoc", "c": rng.choice(tgt)})                         # associate into RUN / CHAINED / unknown
+        elif y == 7:
+            tgt = [c for c in ALL if c not in RUNS or c not in exist]
+            ops.append({"op": "put", "id": 900 + len(ops) % 90, "ty": rng.randrange(3), "run": rng.choice(tgt), "refused": True})
+        elif missing:
+            ops.append({"op": rng.choice(["qsummary", "qdata"]), "ty": rng.randrange(3), "c": rng.choice(missing)})
+
     for _ in range(length):
+        n_before = len(ops)
         x = rng.random()
         if x < 0.10:
             ops.append({"op": "exit" if inside[0] else "enter"})
             inside[0] = not inside[0]
-        elif x < 0.28:
+        elif x < 0.20:
+            refused()
+        elif x < 0.27:
+            ops.append(wild())
+        elif x < 0.40:
             put()
-        elif x < 0.37:
+        elif x < 0.47:
             cs_ = [c for c in CHAINS if c in exist]
             if cs_:
                 setchain(rng.choice(cs_), rng.sample(nonchains(), min(len(nonchains()), rng.choice([0, 1, 2, 2, 3]))))
-        elif x < 0.46:
+        elif x < 0.55:
             free = [c for c in sorted(exist) if not is_kid(c)]
             y = rng.random()
             if y < 0.75 and free:
@@ -420,10 +464,10 @@ def gen_reg_history(rng, length, modelled=True):
                 remove(anyc())                                   # possibly a chain's child: refused
             else:
                 remove(rng.choice(RUNS + CHAINS + TAGGED))       # possibly missing: refused
-        elif x < 0.55:
+        elif x < 0.63:
             missing = [c for c in RUNS + CHAINS + TAGGED if c not in exist]
             register(rng.choice(missing) if missing and rng.random() < 0.85 else anyc())
-        elif x < 0.70:
+        elif x < 0.74:
             ops.append({"op": "qsummary", "c": anyc()})
         elif x < 0.92 or modelled:
             ops.append({"op": "qdata", "ty": rng.randrange(3), "c": anyc()})
@@ -440,6 +484,10 @@ def gen_reg_history(rng, length, modelled=True):
             elif runs() and 6 in exist:
                 ops.append({"op": "tag", "ty": rng.randrange(3), "run": rng.choice(runs())})
                 ops.append({"op": "qdata", "ty": rng.randrange(3), "c": 6})
+        if len(ops) > n_before and ops[-1]["op"] not in ("qcolls", "qdataglob") and rng.random() < probe_rate:
+            ops.append(wild())
+            if rng.random() < 0.3:
+                ops.append(wild())
     z = rng.random()
     if z < 0.3 and [c for c in CHAINS if c in exist]:
         # directed motif: cached read of a chain's summary, write, read again inside one context
@@ -482,6 +530,16 @@ def gen_reg_history(rng, length, modelled=True):
             if b_ in RUNS:
                 put(b_)
                 ops.append({"op": "qsummary", "c": b_})
+    if rng.random() < 0.5:
+        # directed motif: a pattern lookup fills the record cache, a REFUSED request follows, pattern lookups come next
+        # (before any lookup by exact name)
+        if not inside[0]:
+            ops.append({"op": "enter"})
+            inside[0] = True
+        ops.append(wild() if rng.random() < 0.5 else {"op": "qcolls", "pat": "dots", "api": "registry"})
+        refused()
+        ops += [{"op": "qcolls", "pat": rng.choice(["all", "dots", "r", "ch", "tag"]), "api": "registry"},
+                {"op": "qdataglob", "ty": rng.randrange(3), "pat": rng.choice(["r", "all"]), "api": "legacy"}, wild()]
     if inside[0]:
         ops.append({"op": "exit"})
     return {"init_chains": init, "ops": ops, "modelled": modelled}
@@ -510,11 +568,13 @@ def check_reg_history(ctx: Ctx, hist, res):
             inside, last_write, read_in_ctx = True, "none", False
         elif k == "exit":
             inside = False
-        elif k in ("put", "setchain", "tag", "remove", "register"):
+        elif k in ("put", "setchain", "tag", "remove", "register", "assoc", "register_conflict"):
             if inside:
                 if read_in_ctx:
                     stats["stale_risk"] += 1
                 last_write = k
+        if k in ("put", "setchain", "tag", "remove", "register", "assoc", "register_conflict") and inside and isinstance(ou["res"], str):
+            last_write = f"refused-{k}"
         if oc["res"] != ou["res"]:
             where = f"after-{last_write}" if inside else "outside-context"
             fail(i, f"registry-cached-differs:{k}:{where}",
@@ -531,6 +591,12 @@ def check_reg_history(ctx: Ctx, hist, res):
     return first, stats
 
 
+def _among(pat):
+    """the collection names (numbers) a pattern of the driver matches, among all names the histories use"""
+    return {"all": RUNS + CHAINS + TAGGED, "dots": RUNS + CHAINS + TAGGED, "re_all": RUNS + CHAINS + TAGGED,
+            "r": RUNS, "re_r": RUNS, "ch": CHAINS, "tag": TAGGED}[pat]
+
+
 def _crop(op):
     k = op["op"]
     if k == "enter":
@@ -544,7 +610,17 @@ def _crop(op):
     if k == "setchain":
         return f"SetChain {cn(op['c'])} {clist(cn(x) for x in op['kids'])}"
     if k == "put":
+        if op["run"] in TAGGED:
+            return "Refused"      # inserting into a TAGGED collection (tags are not modelled)
         return f"Put {cn(op['id'])} {cn(op['ty'])} {cn(op['run'])}"
+    if k == "register_conflict":
+        return f"Register {cn(op['c'])} {'true' if op['c'] in CHAINS else 'false'}"
+    if k == "assoc":
+        return "Refused"
+    if k == "qcolls" and "pat" in op:
+        return f"QColls {clist(cn(c) for c in _among(op['pat']))}"
+    if k == "qdataglob":
+        return f"QDataGlob {cn(op['ty'])} {clist(cn(c) for c in _among(op['pat']))}"
     if k == "qsummary":
         return f"QSummary {cn(op['c'])}"
     if k == "qdata":
